@@ -11,7 +11,7 @@ func init() {
 		ID:         "C27",
 		Level:      "other",
 		Technique:  "CFG dominance: size bound before allocation/peek, sign test before use of the decoded size, error-identity conditions on every return of the reader, prefix/body agreement in the writer (static)",
-		Explain:    "Decides structural necessary conditions of size-delimited framing: (1) in UnmarshalFrom every allocation, Peek or Discard sized by the decoded length is dominated by the rejection of lengths above MaxSize (or above MaxInt when unlimited) and by the `n < 0` rejection of a malformed/truncated size varint; (2) a raw read error can be returned from the size loop only when it is not io.EOF or no size byte was read yet (clean boundary), and after the body read io.EOF is converted to io.ErrUnexpectedEOF before any error return, with Unmarshal reached only when the body was read completely; (3) in MarshalTo the varint prefix is the length of exactly the byte slice written after it, prefix first.",
+		Explain:    "Decides structural necessary conditions of size-delimited framing: (1) in UnmarshalFrom every allocation, Peek or Discard sized by the decoded length is dominated by the rejection of lengths above MaxSize (or above MaxInt when unlimited) and by the `n < 0` rejection of a malformed/truncated size varint; (2) a raw read error can be returned from the size loop only when it is not io.EOF or no size byte was read yet (clean boundary), and after the body read io.EOF is converted to io.ErrUnexpectedEOF before any error return, with Unmarshal reached only when the body was read completely; (3) in MarshalTo the varint prefix is the length of exactly the byte slice written after it, prefix first. Also: every path of UnmarshalFrom to `return nil` passes through o.Unmarshal (an empty frame still resets the destination).",
 		NotCovered: "order and equality of messages on concrete streams, behaviour of third-party Reader implementations, and that ParseError maps a truncated varint to io.ErrUnexpectedEOF (protowire, C02).",
 		Quick:      all("./encoding/protodelim"),
 		Thorough:   all("./..."),
